@@ -549,8 +549,8 @@ func run(c *mon.Case) {
 
 func main() {
 	mon.Main(mon.Spec{
-		Prop: "C17",
-		Rule: "case = (operation, operand sets); exhaustive over all pairs of subsets of a small universe in canonical form, all lists of <=3 intervals over 7 points through NewMap, plus random interval lists with duplicates/nesting/adjacency at the extremes of uint8/int16/uint64, and over a split universe whose two halves lie at opposite ends of the type's range (uint64 low/high half, int64 min/max, ...); non-trivial = result has >=2 intervals, or an operand is empty, or one interval spans two of the other operand",
+		Prop:        "C17",
+		Rule:        "case = (operation, operand sets); exhaustive over all pairs of subsets of a small universe in canonical form, all lists of <=3 intervals over 7 points through NewMap, plus random interval lists with duplicates/nesting/adjacency at the extremes of uint8/int16/uint64, and over a split universe whose two halves lie at opposite ends of the type's range (uint64 low/high half, int64 min/max, ...); non-trivial = result has >=2 intervals, or an operand is empty, or one interval spans two of the other operand",
 		Explanation: "oracle: bitset over the universe; every result must be sorted, disjoint, non-adjacent, non-empty and denote exactly the reference set; operands must be unchanged; in the pool histories (24 operations whose operands are earlier operands and results) every map built or returned so far must still denote its set after each operation; panics are violations. exhaustive=true refers to the pair enumeration over the 10-point (quick) / 12-point (thorough) universe and the NewMap list enumeration.",
 		Assumptions: []string{"bitset reference over a <=24 point window", "interval.New with begin<end is the only way inputs are built"},
 		Cases:       cases,
@@ -562,6 +562,6 @@ func main() {
 		},
 		Exhaustive:     func(string) bool { return true },
 		RequiredCounts: []string{"far_apart_universe_cases", "pool_history_ops", "random_histories", "exhaustive_pairs"},
-		Run:        run,
+		Run:            run,
 	})
 }
